@@ -493,8 +493,10 @@ func (v *VerifC12) NodeProcessReadyToRead(low, high, index, lastApplied uint64) 
 // lastCommitted) which applyRaftUpdates has only queued for the apply worker:
 // ud.LastApplied is the applied index of the state machine.
 func (v *VerifC12) NodeProcessReadyToReadUpdate(low, high, index, lastApplied uint64, fastApply bool, lastCommitted uint64) {
-	ud := pb.Update{LastApplied: lastApplied, FastApply: fastApply,
+	ud := pb.Update{ShardID: 1, LastApplied: lastApplied, FastApply: fastApply,
 		ReadyToReads: []pb.ReadyToRead{{Index: index, SystemCtx: pb.SystemCtx{Low: low, High: high}}}}
+	// everything up to the applied index went through the apply queue earlier
+	v.n.pushedIndex = lastApplied
 	for i := lastApplied + 1; i <= lastCommitted && i <= lastApplied+4; i++ {
 		idx := i
 		if i == lastApplied+4 {
@@ -502,6 +504,11 @@ func (v *VerifC12) NodeProcessReadyToReadUpdate(low, high, index, lastApplied ui
 		}
 		ud.CommittedEntries = append(ud.CommittedEntries, pb.Entry{Type: pb.ApplicationEntry, Index: idx, Term: 1})
 	}
+	// engine.processSteps: node.applyRaftUpdates(ud) queues the committed entries for the apply
+	// worker (node.pushedIndex moves to the last of them), then node.processReadyToRead(ud)
+	v.n.applyRaftUpdates(ud)
+	v.n.toApplyQ.GetAll()
+	v.n.toCommitQ.GetAll()
 	v.n.processReadyToRead(ud)
 }
 
@@ -567,4 +574,24 @@ func VerifC12FreshProposalKeys(shardID, replicaID, ps, clientID uint64, n int) [
 		out = append(out, p.nextKey(clientID))
 	}
 	return out
+}
+
+// ProposalShardLockHeld / ConfigChangeLockHeld report whether the mutex of the
+// proposal shard of key / of the config change table is held by somebody right
+// now (TryLock). Meant to be called from a logger callback that runs inside the
+// table code, e.g. at the plog.Panicf of RequestState.committed().
+func (v *VerifC12) ProposalShardLockHeld(key uint64) bool {
+	sh := v.pp.shards[key%v.pp.ps]
+	if sh.mu.TryLock() {
+		sh.mu.Unlock()
+		return false
+	}
+	return true
+}
+func (v *VerifC12) ConfigChangeLockHeld() bool {
+	if v.pc.mu.TryLock() {
+		v.pc.mu.Unlock()
+		return false
+	}
+	return true
 }
